@@ -83,6 +83,11 @@ func (spec Spec) Validate() error {
 	if spec == (Spec{}) {
 		return fmt.Errorf("none of the validations are defined")
 	}
+	// the signature validator can not verify anything without access keys,
+	// signer.Verify panics in that case.
+	if spec.Signature != nil && len(spec.Signature.AccessKeys) == 0 {
+		return fmt.Errorf("signature: accessKeys is empty")
+	}
 	return nil
 }
 
